@@ -99,8 +99,15 @@ def thorough(pid: str, model, rep: Report, args) -> None:
         st["seeded_ran" if seed else "twins_ran"] += 1
         if r["ok"]:
             st["seeded_caught" if seed else "twins_silent"] += 1
-        else:
+        elif seed or r["kind"] == "mechanical-twin":
+            # a confirmed property-breaking change that is no longer reported, or a purely mechanical re-emission of the tree that changes a verdict:
+            # the rule has gone blind / depends on layout -- the run is not a verdict
             rep.error(f"self-validation: {r['kind']} {r['name']}: {r.get('why', '')}")
+        else:
+            # a hand-written refactoring on which this check is not silent: a limit of the normaliser, recorded (evidence, DESIGN.md appendix),
+            # not a statement about the tree under analysis -- it does not change this run's verdict
+            st.setdefault("twins_not_silent", []).append(r["name"])
+            print(f"SELFTEST-NOTE property={pid} not silent on stored refactoring {r['name']}: {r.get('why', '')[:200]}")
         st["details"].append({"name": r["name"], "kind": r["kind"], "ok": r["ok"], "new_refutations": sorted(set(r["refuted"]) - base)[:4]})
     rep.stats["selftest"] = st
     print(f"SELFTEST property={pid} seeded {st['seeded_caught']}/{st['seeded_ran']} caught ({st['seeded_skipped']} skipped), "
